@@ -1,10 +1,10 @@
 #!/bin/bash
 # Evaluate a seeded change without touching /repo: a scratch worktree of /repo's HEAD gets the patch, a
 # copy of the harness is pointed at it, and one engine is run directly. Prints the violation signatures.
-# Usage: eval_scratch.sh <patch.diff|none> <engine> <prop> [engine args...]
+# Usage: [EV=/tmp/ev-mine] eval_scratch.sh <patch.diff|none> <engine> <prop> [engine args...]   (EV: scratch root, default /tmp/ev)
 set -u
 patch="$1"; engine="$2"; prop="$3"; shift 3
-W=/tmp/ev/repo; H=/tmp/ev/harness; T=/tmp/ev/target
+EV=${EV:-/tmp/ev}; mkdir -p $EV; W=$EV/repo; H=$EV/harness; T=$EV/target
 if [ ! -d $W ]; then git -C /repo worktree add --detach $W HEAD >/dev/null 2>&1 || exit 2; fi
 git -C $W checkout -q --detach $(git -C /repo rev-parse HEAD) && git -C $W checkout -- . && git -C $W clean -fdq
 if [ "$patch" != none ]; then git -C $W apply "$patch" || { echo "PATCH DOES NOT APPLY"; exit 2; }; fi
@@ -12,8 +12,8 @@ mkdir -p $H; rsync -a --delete --exclude target /verif/harness/ $H/
 sed -i "s#\"/repo/#\"$W/#g" $H/Cargo.toml
 sed -i "s#/verif/target#$T#" $H/.cargo/config.toml
 ( cd $H && CARGO_TARGET_DIR=$T CARGO_NET_OFFLINE=true cargo build --release -p $engine 2>&1 | grep -E "^error" -A8 | head -30 )
-out=/tmp/ev/out.$engine.$prop.json
-$T/release/$engine --prop $prop --tier quick --seed ${VERIF_SEED:-1} --out $out "$@" >/tmp/ev/stdout.txt 2>&1; echo "engine exit=$?"
+out=$EV/out.$engine.$prop.json
+$T/release/$engine --prop $prop --tier quick --seed ${VERIF_SEED:-1} --out $out "$@" >$EV/stdout.txt 2>&1; echo "engine exit=$?"
 python3 - $out <<'PY'
 import json,sys
 d=json.load(open(sys.argv[1]))
